@@ -6,7 +6,7 @@ from ..core import AnalysisError, norm, walk_no_nested
 
 META = {
     'design_ref': 'DESIGN.md §5 C07',
-    'technique': 'abstract interpretation (sa.heap with symbolic strings) of has_file/get_file on the three spellings of a member name, of DebFile.__init__ on all archive layouts with zero, one or two candidates per part, of tgz() on every candidate name and error source, of md5sums()/scripts()/debcontrol() on symbolic lines; two-instance scenario for state shared between parts; layouts with a duplicated member name; position of the member when tarfile.open receives it; newline mode of the text wrapper',
+    'technique': 'abstract interpretation (sa.heap with symbolic strings) of has_file/get_file on the three spellings of a member name, of DebFile.__init__ on all archive layouts with zero, one or two candidates per part, of tgz() on every candidate name and error source, of md5sums()/scripts()/debcontrol() on symbolic lines; two-instance scenario for state shared between parts; layouts with a duplicated member name; position of the member when tarfile.open receives it; newline mode of the text wrapper; six member orders; ownership rule: the member object a part reads through is not one the archive hands out (one cursor per holder); format-arity rule for the messages of refusals',
     'level_text': 'Static decision: every query name passes through a normaliser that strips exactly one leading "./" or "/" before the '
                   'single lookup spelling "./name"; the part for control/data is the unique member among all compressed and uncompressed '
                   'candidates or DebError; every candidate name is accepted by the extension test; all structural failures raise DebError; '
@@ -167,6 +167,17 @@ def r2_part_discovery(rep, src):
     n_cases += 1
     if res != ('raise', 'DebError') and bad is None:
         bad = 'an archive with two %s members is accepted (the format version is read from the second): more than one candidate for a part must be rejected' % INFO
+    # member order is a configuration of the property: the three members in every order give the same parts
+    order_bad = None
+    for perm in itertools.permutations([INFO, CTRL + '.xz', DATA + '.gz']):
+        n_cases += 1
+        res = build(list(perm))
+        if (res[0] != 'ok' or res[1].get(CTRL) != ('DebControl', CTRL + '.xz') or res[1].get(DATA) != ('DebData', DATA + '.gz')) and order_bad is None:
+            order_bad = 'the members in the order %s give %r; every order of the three members is the same package' % (list(perm), res)
+    if order_bad:
+        rep.fail('C07.R2', f.site, 'member order does not matter', order_bad, where=f.where)
+    else:
+        rep.ok('C07.R2', f.site, 'member order does not matter', 'all 6 orders of debian-binary / control / data wire the same parts')
     if bad:
         rep.fail('C07.R2', f.site, 'exactly one candidate per part', bad, where=f.where)
     else:
@@ -409,7 +420,10 @@ def r7_parts_own_their_cursor(rep, src):
     heap.symbolic_strings = True
     me = heap.alloc('DebFile', {}, name='@deb')
     it = H.Interp(heap)
-    it.call(H.Closure(f.node, {}, me, f.cls), [None, 'r', None])
+    try:
+        it.call(H.Closure(f.node, {}, me, f.cls), [None, 'r', None])
+    except H.Raised as x:
+        raise AnalysisError('C07.R7: DebFile.__init__ raises %s on the archive [%s] (decided under C07.R2 / R3)' % (x.exc, ', '.join(names)))
     parts = heap.objs[me.name].get('_DebFile__parts')
     if parts is None:
         raise AnalysisError('C07.R7: DebFile.__init__ does not fill __parts any more')
@@ -460,3 +474,5 @@ def check(src, rep, tier):
     rep.guard('C07.R5', r5_parts_are_isolated_views, src)
     rep.need('C07.R7', 2)
     rep.guard('C07.R7', r7_parts_own_their_cursor, src)
+    from . import common
+    rep.guard('C07.R3', common.check_error_construction, src, 'C07.R3', 'debfile', None, 0)
